@@ -30,6 +30,33 @@ for sid in sorted(res):
     obl = "; ".join(o.split("/", 1)[-1][-110:] for o in (r.get("failed_obligations") or [])[:2]).replace("|", "/")
     rows.append(f"| {sid} | {', '.join(files)[:70]} | {summ} | {verdict} | {obl} |")
 table = "\n".join(rows) + f"\n\nDetected: {det} of {tot} (quick check of the seed's own property, exit 1 with a VIOLATION line).\n"
+# harmless refactorings: the check must not alarm
+hp = os.path.join(ROOT, "seeded_harmless", "RESULTS.json")
+if os.path.exists(hp):
+    hres = json.load(open(hp))
+    hrows = ["| harmless change | file(s) changed | what was refactored | verdict of the property's quick check |", "|---|---|---|---|"]
+    n0 = n2 = bad = 0
+    for sid in sorted(hres):
+        d = os.path.join(ROOT, "seeded_harmless", sid)
+        if not os.path.isdir(d):
+            continue
+        try:
+            meta = json.load(open(os.path.join(d, "meta.json")))
+        except Exception:
+            meta = {}
+        patch = open(os.path.join(d, "patch.diff")).read()
+        files = sorted({m.split("/")[-1] for m in re.findall(r"^\+\+\+ b/(\S+)", patch, re.M)})
+        summ = (meta.get("summary") or "").replace("|", "/").replace("\n", " ")
+        summ = summ[:200] + ("…" if len(summ) > 200 else "")
+        ex = hres[sid].get("exit")
+        if ex == 0:
+            n0 += 1; verdict = "held (exit 0)"
+        elif ex == 2:
+            n2 += 1; verdict = "undecided (exit 2): " + "; ".join(x for x in [str(hres[sid].get("undecided")) + " function(s) outside the subset / invariant names a renamed local"] )
+        else:
+            bad += 1; verdict = f"ALARM (exit {ex})"
+        hrows.append(f"| {sid} | {', '.join(files)[:60]} | {summ} | {verdict} |")
+    table += "\n" + "\n".join(hrows) + f"\n\nHarmless changes without alarm: {n0 + n2} of {n0 + n2 + bad} (exit 0: {n0}; undecided, exit 2: {n2}; alarms: {bad}).\n"
 p = os.path.join(ROOT, "DESIGN.md")
 s = open(p).read()
 b, e = "<!-- SEEDED-TABLE-BEGIN -->", "<!-- SEEDED-TABLE-END -->"
